@@ -100,7 +100,7 @@ class Case:
             l.append("validator " + self.validator)
         if self.printer:
             l.append("printer 1")
-        for k in ("highlight", "signals", "paste", "helper_panic_at", "auto_add", "printers", "printers_late", "linger", "stdout_full", "max_hist", "tab_stop", "indent_size", "prompt_limit", "show_all"):
+        for k in ("highlight", "signals", "paste", "helper_panic_at", "auto_add", "printers", "printers_late", "linger", "stdout_full", "max_hist", "tab_stop", "indent_size", "prompt_limit", "show_all", "bell"):
             if k in self.meta:
                 l.append("%s %s" % (k, self.meta[k]))
         for ks, cmd in self.binds:
@@ -122,7 +122,7 @@ class Case:
             kv.append("hints=" + ",".join(self.s(c) for c in self.hints))
         for ks, cmd in self.binds:
             kv.append("bind=%s %s" % (ks, cmd))
-        for k in ("tab_stop", "indent_size", "prompt_limit", "show_all"):
+        for k in ("tab_stop", "indent_size", "prompt_limit", "show_all", "bell"):
             if k in self.meta:
                 kv.append("%s=%s" % (k, self.meta[k]))
         toks = []
@@ -645,7 +645,8 @@ def c14_cases(tier, seed):
                           timeout=0 if mode == "vi" else rng.choice(["none", 0]), prompt=rng.choice(["> ", "日> "]),
                           cols=rng.choice([20, 12, 32, 33, 34]) if wide else rng.choice([80, 80, 30]),
                           meta=dict(({"prompt_limit": rng.choice([0, 1, 2, 3])} if rng.random() < 0.25 else {}),
-                                    **({"show_all": 1} if ct == "list" and rng.random() < 0.3 else {}))))
+                                    **({"show_all": 1} if ct == "list" and rng.random() < 0.3 else {}),
+                                    **({"bell": 0} if rng.random() < 0.2 else {}))))
     return cases
 
 
